@@ -239,7 +239,7 @@ type Case struct {
 	Tmpl    int      `json:"tmpl"`
 	Tree    [3]int   `json:"tree"`
 	Content []int    `json:"content"`
-	KeyStmt int      `json:"key_stmt"` // >= 0: index into keyAssign instead of Tmpl/Tree
+	KeyStmt int      `json:"key_stmt"`       // >= 0: index into keyAssign instead of Tmpl/Tree
 	Hist    []int    `json:"hist,omitempty"` // history case: rig.Prefixes executed first on the same router
 	HTarget int      `json:"h_target"`       // history case: index into hTargets
 	SQL     string   `json:"sql,omitempty"`
@@ -698,11 +698,11 @@ func main() {
 	}
 	pairTmpl := map[string]bool{"delete": true, "update_two": true, "update_alias": true, "delete_db": true}
 	type item struct {
-		l   rig.Layout
-		t   int
-		tr  [3]int
-		tri int
-		ks  int
+		l    rig.Layout
+		t    int
+		tr   [3]int
+		tri  int
+		ks   int
 		hist int // > 0: history family, index+1 into hists
 	}
 	var items []item
@@ -711,6 +711,27 @@ func main() {
 			items = append(items, item{l: l, ks: ks})
 		}
 	}
+	// order: key-assigning statements, trees with at most one atom, the history family,
+	// two-atom trees (so that a time cap under heavy load leaves each part started)
+	var pairItems []item
+	// simplest trees first, all layouts and templates inside each tree
+	for tri, tr := range trees {
+		for _, l := range layouts {
+			for t := range tmpls {
+				// quick tier: two-atom trees meet four of the templates (routing of
+				// AND/OR is independent of how the statement spells its table)
+				if r.Quick() && tr[0] >= 3 && tr[0] <= 8 && !pairTmpl[tmpls[t].name] {
+					continue
+				}
+				if tr[0] >= 3 && tr[0] <= 8 {
+					pairItems = append(pairItems, item{l: l, t: t, tr: tr, tri: tri, ks: -1})
+				} else {
+					items = append(items, item{l: l, t: t, tr: tr, tri: tri, ks: -1})
+				}
+			}
+		}
+	}
+
 	// the history family: every prefix of 1 or 2 statements x every statement under test,
 	// on one layout per rule type (quick) / all layouts (thorough)
 	var hists [][]int
@@ -737,20 +758,7 @@ func main() {
 			items = append(items, item{l: l, ks: -1, hist: hi + 1})
 		}
 	}
-	// simplest trees first, all layouts and templates inside each tree
-	for tri, tr := range trees {
-		for _, l := range layouts {
-			for t := range tmpls {
-				// quick tier: two-atom trees meet four of the templates (routing of
-				// AND/OR is independent of how the statement spells its table)
-				if r.Quick() && tr[0] >= 3 && tr[0] <= 8 && !pairTmpl[tmpls[t].name] {
-					continue
-				}
-				items = append(items, item{l: l, t: t, tr: tr, tri: tri, ks: -1})
-			}
-		}
-	}
-
+	items = append(items, pairItems...)
 	// one pristine store per (layout, content); every case works on a clone
 	templates := map[string][]*rig.Store{}
 	for _, l := range layouts {
